@@ -3,7 +3,7 @@
    src/rvutils/pbofile.hpp by the correspondence run of checks/C17.py. *)
 From Coq Require Import ZArith List.
 Import ListNotations.
-From SqfVerif Require Import PBO.PboDefs PBO.PboProofs.
+From SqfVerif Require Import PBO.PboDefs PBO.PboProofs PBO.PboTrunc.
 Local Open Scope Z_scope.
 
 (* Every well-formed archive of any size: the reader reports exactly the stored
@@ -45,6 +45,34 @@ Theorem C17_open_fuel_irrelevant : forall (l:list Z) f, (length l <= f)%nat ->
 Proof. exact open_fuel_irrelevant. Qed.
 Print Assumptions C17_open_fuel_irrelevant.
 
+(* DAMAGED ARCHIVES, truncation: EVERY proper prefix of a well-formed packed archive (any size, any cut) is refused by the
+   reader - a truncated archive exposes no entry at all, hence no damaged one. *)
+Theorem C17_truncation_rejected : forall a n, wf a -> (n < length (pack a))%nat -> open (firstn n (pack a)) = None.
+Proof. exact truncation_rejected. Qed.
+Print Assumptions C17_truncation_rejected.
+
+(* Bytes behind the data area (a checksum trailer, padding, garbage of any length) change nothing: ANY archive the reader
+   accepts is accepted with the same properties and the same table when bytes are appended ... *)
+Theorem C17_trailing_bytes_ignored : forall l p x, open l = Some p ->
+  open (l ++ x) = Some {| p_attrs := p_attrs p; p_hdrs := p_hdrs p; p_len := len l + len x |}.
+Proof. exact open_ext. Qed.
+Print Assumptions C17_trailing_bytes_ignored.
+
+(* ... and every read returns the same bytes as without them. *)
+Theorem C17_trailing_bytes_reads : forall l p x name, Forall isbyte l -> open l = Some p ->
+  read_entry (l ++ x) {| p_attrs := p_attrs p; p_hdrs := p_hdrs p; p_len := len l + len x |} name = read_entry l p name.
+Proof. exact read_ext. Qed.
+Print Assumptions C17_trailing_bytes_reads.
+
+(* Corruption confined to the data area (same length, any bytes): the reader reports the properties and the table of the
+   undamaged archive - names, sizes and positions of all entries are as stored; only the bytes that were changed differ. *)
+Theorem C17_data_corruption_keeps_table : forall a d', wf a -> length d' = length (flat_map edata (entries a)) ->
+  let L := pack a in
+  let L' := firstn (length L - length d') L ++ d' in
+  exists p', open L' = Some p' /\ p_attrs p' = props a /\ p_hdrs p' = p_hdrs (packed_pbo a) /\ p_len p' = len L.
+Proof. exact data_corruption_table. Qed.
+Print Assumptions C17_data_corruption_keeps_table.
+
 (* non-vacuity: a concrete two-entry archive with a property meets wf and reads back *)
 Definition ex_archive : archive :=
   {| props := [([112;114;101;102;105;120], [120;92;121])];
@@ -62,3 +90,12 @@ Proof. eexists. split; [vm_compute; reflexivity|]. split; vm_compute; reflexivit
 (* and a truncated archive is rejected by the model *)
 Example ex_truncated : open (firstn 60 (pack ex_archive)) = None.
 Proof. vm_compute. reflexivity. Qed.
+(* non-vacuity of the damaged-archive theorems: every cut of the example archive is refused (checked in the kernel for all
+   cuts), 21 appended bytes are ignored, and a changed data byte leaves the table alone *)
+Example ex_all_cuts_refused :
+  forallb (fun n => match open (firstn n (pack ex_archive)) with None => true | Some _ => false end)
+          (seq 0 (length (pack ex_archive))) = true.
+Proof. vm_compute. reflexivity. Qed.
+Example ex_trailer : exists p, open (pack ex_archive ++ repeat 7 21) = Some p /\
+  read_entry (pack ex_archive ++ repeat 7 21) p [97;46;115;113;102] = Some [49;43;49;0;255].
+Proof. eexists. split; vm_compute; reflexivity. Qed.
